@@ -376,9 +376,41 @@ func (i InfixExpression) PrettyPrint(out *PrintState) *PrintState {
 	i.Left.PrettyPrint(out)
 	if out.Compact {
 		out.Print(i.Literal())
+		if i.Type() == token.MINUS || i.Type() == token.PLUS {
+			// a - -b, a + +b, a - --b: without a space the signs would lex as the -- / ++ tokens.
+			// Print the right side to a scratch buffer to see whether it starts with the same sign.
+			i.printRightAfterSign(out)
+			if needParen {
+				out.Print(")")
+			}
+			out.ExpressionPrecedence = oldPrecedence
+			return out
+		}
 	} else {
 		out.Print(" ", i.Literal(), " ")
 	}
+	i.printRight(out)
+	if needParen {
+		out.Print(")")
+	}
+	out.ExpressionPrecedence = oldPrecedence
+	return out
+}
+
+func (i InfixExpression) printRightAfterSign(out *PrintState) {
+	realOut := out.Out
+	buf := strings.Builder{}
+	out.Out = &buf
+	i.printRight(out)
+	out.Out = realOut
+	text := buf.String()
+	if text != "" && text[0] == i.Literal()[0] {
+		_, _ = realOut.Write([]byte{' '})
+	}
+	_, _ = realOut.Write([]byte(text))
+}
+
+func (i InfixExpression) printRight(out *PrintState) {
 	switch right := i.Right.(type) {
 	case nil:
 		out.Print("nil")
@@ -396,11 +428,6 @@ func (i InfixExpression) PrettyPrint(out *PrintState) *PrintState {
 	default:
 		i.Right.PrettyPrint(out)
 	}
-	if needParen {
-		out.Print(")")
-	}
-	out.ExpressionPrecedence = oldPrecedence
-	return out
 }
 
 // Operators for which (a op b) op c and a op (b op c) are interchangeable, so redundant
